@@ -452,33 +452,31 @@ func (d *Driver) Run() {
 		if d.Extra != nil {
 			acts = append(acts, d.Extra()...)
 		}
-		// weights
+		// weights: ordinary actions count 8x their table weight, a tick
+		// counts 1, so a tick (= 200ms of virtual delay for everybody) is a
+		// rare choice while anything else is enabled. Zero-weight actions
+		// are served only when no positively weighted action is enabled.
 		total := 0
 		ws := make([]int, len(acts))
 		for i, a := range acts {
-			ws[i] = d.Sched.weight(a.Slot)
+			ws[i] = 8 * d.Sched.weight(a.Slot)
 			total += ws[i]
 		}
-		tickW := 1
-		total += tickW
-		pick := d.next(total)
-		chosen := -1
-		for i := range acts {
-			if pick < ws[i] {
-				chosen = i
-				break
+		if total == 0 {
+			for i := range acts {
+				ws[i] = 8
+				total += 8
 			}
-			pick -= ws[i]
 		}
-		if chosen < 0 {
-			// tick chosen. When actions with weight 0 are the only other
-			// thing enabled, alternate: a zero-weight action runs when the
-			// choice value is odd, so starved links are eventually served.
-			if len(acts) > 0 && total == tickW {
-				k := d.next(len(acts) + 1)
-				if k < len(acts) {
-					chosen = k
+		chosen := -1
+		if len(acts) > 0 {
+			pick := d.next(total + 1)
+			for i := range acts {
+				if pick < ws[i] {
+					chosen = i
+					break
 				}
+				pick -= ws[i]
 			}
 		}
 		if chosen >= 0 {
